@@ -96,3 +96,123 @@ pub fn c20_record_enpassant() {
     assert!(same(&m.pgn_notation(), &want), "C20: move record of en passant differs from the specified text");
     vcover!(!w && ec == 7, "black en passant to the h file reachable");
 }
+
+// =================================================================================================
+// C12 -- UCI move text: printer, parser, round trip, exactness
+// =================================================================================================
+
+fn text5_eq(s: &str, t: &spec::Text<5>) -> bool { t.eq_bytes(s.as_bytes()) }
+
+/// a game with symbolic board / side / state / king cache; caches irrelevant
+fn parse_game() -> crate::chess::Game { mk::sym_game_nocache(0) }
+
+/// the moves the acceptance test can let through are members of the legal list; this is a cheap
+/// SUPERSET of that list's shape (fields agree with the board; e.p. and promotion are geometrically
+/// real; castling: the king cache says the king is at home)
+fn acceptable(g: &crate::chess::Game, m: &Move) -> bool {
+    let v = adapt::view_of(g);
+    if !adapt::fields_consistent(&v.board, v.white_to_move, m) { return false; }
+    match adapt::smove_of(m) {
+        SMove::Normal { from, to } => from != to && spec::owned_by(v.board[from], v.white_to_move),
+        sm @ SMove::Promo { .. } | sm @ SMove::EnPassant { .. } => spec::pseudo_simple(&v, sm),
+        SMove::CastleShort | SMove::CastleLong => adapt::sq(g.get_king_position(g.player())) == (if v.white_to_move { 4 } else { 60 }),
+    }
+}
+
+/// C12 printer: uci_notation(m) is the standard long-algebraic text of m (from, to, lower-case
+/// promotion letter; castling as the king's two-square move), per move kind
+fn uci_print_case(kind: u8) {
+    let m = crate::chess::verif_chess::sym_move(kind);
+    let white = match m {
+        Move::Normal { piece, .. } => adapt::is_white(piece.owner),
+        Move::Promotion { owner, .. } | Move::EnPassant { owner, .. } | Move::CastlingShort { owner } | Move::CastlingLong { owner } => adapt::is_white(owner),
+    };
+    let want = spec::uci_text(adapt::smove_of(&m), white);
+    assert!(text5_eq(&m.uci_notation(), &want), "C12: uci_notation is not the standard long-algebraic text of the move");
+    vcover!(!white, "black move reachable");
+}
+macro_rules! uci_print { ($n:ident, $k:expr) => {
+    #[cfg_attr(kani, kani::proof)] #[cfg_attr(kani, kani::unwind(9))] #[cfg_attr(verif_replay, test)]
+    pub fn $n() { uci_print_case($k) } } }
+uci_print!(c12_print_normal, 0);
+uci_print!(c12_print_promotion, 1);
+uci_print!(c12_print_enpassant, 2);
+uci_print!(c12_print_castling_short, 3);
+uci_print!(c12_print_castling_long, 4);
+
+fn str_of<'a>(b: &'a [u8]) -> &'a str { unsafe { core::str::from_utf8_unchecked(b) } }
+
+/// C12 round trip: for every acceptable move m of the position, reading its standard text back in the
+/// same position gives exactly m (so distinct legal moves have distinct texts)
+fn uci_roundtrip_case(kind: u8) {
+    let g = parse_game();
+    let m = crate::chess::verif_chess::sym_move(kind);
+    let v = adapt::view_of(&g);
+    nd::assume(v.ep <= 8);
+    nd::assume(crate::chess::verif_chess::king_cache_ok(&g, true) && crate::chess::verif_chess::king_cache_ok(&g, false));
+    nd::assume(spec::count(&v.board, spec::K) == 1 && spec::count(&v.board, spec::K | spec::BLACK) == 1);
+    nd::assume(acceptable(&g, &m));
+    // the parts of legality the round trip depends on: pawn moves are real pawn moves, king moves are
+    // single steps (a two-square king move is written like castling), e.p. lands on an empty square (WF7)
+    nd::assume(match (adapt::smove_of(&m), &m) {
+        (SMove::Normal { from, to }, Move::Normal { piece, .. }) => match piece.piece_type {
+            PieceType::Pawn => !spec::owned_by(v.board[to], v.white_to_move) && spec::pawn_normal_ok(&v, from, to),
+            PieceType::King => spec::piece_move_ok(&v, from, to, spec::K),
+            _ => true,
+        },
+        (SMove::EnPassant { to, .. }, _) => v.board[to] == spec::EMPTY,
+        _ => true,
+    });
+    let t = spec::uci_text(adapt::smove_of(&m), v.white_to_move);
+    #[cfg(not(kani))]
+    eprintln!("position: {}\nmove: {}", adapt::show_view(&v), adapt::show_move(&m));
+    let back = if kind == 1 { Move::from_uci_notation(str_of(&t.b[..5]), &g) } else { Move::from_uci_notation(str_of(&t.b[..4]), &g) };
+    assert!(back == Some(m), "C12: reading a legal move's text back in the same position does not give the same move");
+    vcover!(!v.white_to_move, "black to move reachable");
+}
+macro_rules! uci_rt { ($n:ident, $k:expr) => {
+    #[cfg_attr(kani, kani::proof)] #[cfg_attr(kani, kani::unwind(9))] #[cfg_attr(verif_replay, test)]
+    pub fn $n() { uci_roundtrip_case($k) } } }
+uci_rt!(c12_roundtrip_normal, 0);
+uci_rt!(c12_roundtrip_promotion, 1);
+uci_rt!(c12_roundtrip_enpassant, 2);
+uci_rt!(c12_roundtrip_castling_short, 3);
+uci_rt!(c12_roundtrip_castling_long, 4);
+
+/// C12 exactness: whatever string of N ASCII bytes is given, IF the parser answers Some(m) and m is
+/// acceptable (could be a member of the legal list), THEN the string is exactly m's standard text.
+/// Hence a string that is not the text of a legal move can never be accepted as some legal move.
+fn uci_exact_case<const N: usize>() -> bool {
+    let g = parse_game();
+    let v = adapt::view_of(&g);
+    nd::assume(v.ep <= 8);
+    nd::assume(crate::chess::verif_chess::king_cache_ok(&g, true) && crate::chess::verif_chess::king_cache_ok(&g, false));
+    nd::assume(spec::count(&v.board, spec::K) == 1 && spec::count(&v.board, spec::K | spec::BLACK) == 1);
+    let mut bytes = [0u8; N];
+    let mut i = 0;
+    while i < N { bytes[i] = nd::u8_in(1, 127); i += 1; }
+    let s = str_of(&bytes);
+    #[cfg(not(kani))]
+    eprintln!("position: {}\nstring: {:?}", adapt::show_view(&v), s);
+    if let Some(m) = Move::from_uci_notation(s, &g) {
+        if acceptable(&g, &m) {
+            let t = spec::uci_text(adapt::smove_of(&m), v.white_to_move);
+            assert!(t.eq_bytes(&bytes), "C12: a string that is not the standard text of a move is read as that (acceptable) move");
+        }
+    }
+    Move::from_uci_notation(s, &g).is_some()
+}
+#[cfg_attr(kani, kani::proof)] #[cfg_attr(kani, kani::unwind(9))] #[cfg_attr(verif_replay, test)]
+pub fn c12_exact_4_bytes() { let acc = uci_exact_case::<4>(); vcover!(acc, "accepted 4-byte string reachable"); }
+#[cfg_attr(kani, kani::proof)] #[cfg_attr(kani, kani::unwind(9))] #[cfg_attr(verif_replay, test)]
+pub fn c12_exact_5_bytes() { let acc = uci_exact_case::<5>(); vcover!(acc, "accepted 5-byte string reachable"); }
+#[cfg_attr(kani, kani::proof)] #[cfg_attr(kani, kani::unwind(9))] #[cfg_attr(verif_replay, test)]
+pub fn c12_exact_6_bytes() { let acc = uci_exact_case::<6>(); vcover!(!acc, "rejected 6-byte string reachable"); }
+/// shorter strings are never accepted
+#[cfg_attr(kani, kani::proof)] #[cfg_attr(kani, kani::unwind(9))] #[cfg_attr(verif_replay, test)]
+pub fn c12_short_strings_rejected() {
+    let g = parse_game();
+    let bytes = [nd::u8_in(1, 127), nd::u8_in(1, 127), nd::u8_in(1, 127)];
+    let n = nd::usize_below(4);
+    assert!(Move::from_uci_notation(str_of(&bytes[..n]), &g).is_none(), "C12: a string shorter than four characters is accepted");
+}
